@@ -117,7 +117,7 @@ struct Shared {
     std::atomic<uint64_t> violations;       // in-domain failures not matched by a known finding
     std::atomic<uint64_t> known;            // failures matched by an open known finding
     std::atomic<uint64_t> viol_files;
-    std::atomic<uint64_t> capped;           // deadline hit somewhere
+    std::atomic<uint64_t> capped;           // bit 0: deadline hit somewhere; bit 1: a state/memory cap of an engine was reached; bit 2: a worker was killed by resource limits
     std::atomic<uint64_t> tasks_done;
     std::atomic<uint64_t> nsamples;
     std::atomic<uint64_t> harness_errors;
@@ -214,7 +214,7 @@ struct Run {
         return 0;
     }
     bool deadline_passed() {
-        if (now_s() > deadline_abs) { sh->capped.store(1); return true; }
+        if (now_s() > deadline_abs) { sh->capped.fetch_or(1); return true; }
         return false;
     }
     bool is_known(const std::string &predicate) const {
@@ -347,7 +347,7 @@ struct Run {
             bool crashed = WIFSIGNALED(st) || (WIFEXITED(st) && WEXITSTATUS(st) != 0);
             if (WIFSIGNALED(st) && WTERMSIG(st) == SIGKILL) {
                 // killed from outside (out-of-memory killer, operator): a resource limit of the exploration, not a verdict about the code
-                sh->capped.store(1); sh->killed_workers.fetch_add(1);
+                sh->capped.fetch_or(4); sh->killed_workers.fetch_add(1);
                 fprintf(stderr, "WARNING: worker killed by SIGKILL (resource limit) while executing: %.300s\n", sh->slot[wid]);
                 if (sh->next_task.load() < ntasks) spawn(wid);
                 continue;
@@ -383,7 +383,9 @@ struct Run {
     int finish(const EvidenceExtra &e) {
         double wall = now_s() - t0;
         uint64_t viol = sh->violations.load(), known = sh->known.load(), herr = sh->harness_errors.load();
-        bool capped = sh->capped.load() != 0;
+        uint64_t capbits = sh->capped.load();
+        bool capped = capbits != 0;
+        std::string capwhy = capped ? std::string("false(") + ((capbits & 1) ? "deadline " : "") + ((capbits & 2) ? "state-cap " : "") + ((capbits & 4) ? "resource-limit " : "") + ")" : "true";
         for (uint64_t i = 0; i < std::min<uint64_t>(sh->known_kinds.load(), 8); ++i)
             printf("KNOWN-FINDING: property=%s %s\n", opt.property.c_str(), sh->known_lines[i]);
         if (opt.write_evidence) {
@@ -396,7 +398,7 @@ struct Run {
             fprintf(f, "  \"states\": %" PRIu64 ",\n  \"transitions\": %" PRIu64 ",\n  \"traces_validated_against_impl\": %" PRIu64 ",\n",
                     get(e.states_counter), get(e.transitions_counter), get(e.traces_counter.empty() ? e.states_counter : e.traces_counter));
             fprintf(f, "  \"evaluations\": %" PRIu64 ",\n  \"distinct_nontrivial\": %" PRIu64 ",\n", get(e.eval_counter.empty() ? e.transitions_counter : e.eval_counter), get(e.nontrivial_counter));
-            fprintf(f, "  \"rule\": \"%s\",\n  \"bounds_completed\": \"%s\",\n  \"exhaustive\": %s,\n  \"deadline_hit\": %s,\n", json_escape(e.rule).c_str(), json_escape(e.bounds).c_str(), capped ? "false" : "true", capped ? "true" : "false");
+            fprintf(f, "  \"rule\": \"%s\",\n  \"bounds_completed\": \"%s\",\n  \"exhaustive\": %s,\n  \"deadline_hit\": %s,\n  \"state_cap_hit\": %s,\n", json_escape(e.rule).c_str(), json_escape(e.bounds).c_str(), capped ? "false" : "true", (capbits & 1) ? "true" : "false", (capbits & 2) ? "true" : "false");
             fprintf(f, "  \"counters\": {");
             for (size_t i = 0; i < counter_names.size(); ++i) fprintf(f, "%s\"%s\": %" PRIu64, i ? ", " : "", counter_names[i].c_str(), sh->counters[i].load());
             fprintf(f, "},\n  \"samples\": [");
@@ -411,7 +413,7 @@ struct Run {
             rename((path + ".tmp").c_str(), path.c_str());
         }
         printf("[%s %s %s] states=%" PRIu64 " transitions=%" PRIu64 " nontrivial=%" PRIu64 " violations=%" PRIu64 " known=%" PRIu64 " exhaustive=%s wall=%.1fs\n",
-               engine.c_str(), opt.property.c_str(), opt.tier.c_str(), get(e.states_counter), get(e.transitions_counter), get(e.nontrivial_counter), viol, known, capped ? "false(deadline)" : "true", wall);
+               engine.c_str(), opt.property.c_str(), opt.tier.c_str(), get(e.states_counter), get(e.transitions_counter), get(e.nontrivial_counter), viol, known, capwhy.c_str(), wall);
         if (herr) { fprintf(stderr, "harness errors: %" PRIu64 "\n", herr); return 2; }
         if (viol) {
             if (sh->first_violation[0] == 0) printf("VIOLATION property=%s replay=(not written)\n", opt.property.c_str());
